@@ -856,3 +856,53 @@ def mon_c17(spec, run):
 
 
 MONITORS.update({"C06": mon_c06, "C07": mon_c07, "C14": mon_c14, "C17": mon_c17})
+
+
+# ------------------------------------------------------------------------------------------------ C10 (reader thread / API level)
+def mon_c10(spec, run):
+    """nothing the device sends takes the connection down: the library's threads survive, the disconnect callback is not invoked, the caller
+    sees no exception, and the lines after the hostile ones are still processed (sentinels)"""
+    bad = []
+    tr = run.trace
+    if spec.get("kind") == "api_init":
+        close_seq = first_seq(tr, lambda e: e["k"] == "api_call" and e["op"] == "close", 10 ** 12)
+        ret = next((e for e in tr if e["k"] == "api_ret" and e["op"] == "initialize"), None)
+        if ret is None:
+            bad.append(("no-return", "initialize() never returned"))
+        elif ret["exc"] is not None:
+            bad.append(("raises-in-caller", f"initialize() raised {ret['exc']}: {ret.get('msg')} against a healthy receiver that volunteers lines the library has no use for"))
+        st = next((e["state"] for e in tr if e["k"] == "api_state"), None)
+        if ret is not None and ret["exc"] is None:
+            name, want = spec["sentinel"]
+            got = ((st or {}).get("SYS") or {}).get("attrs", {}).get(name)
+            if got != want:
+                bad.append(("not-processed", f"the line @SYS:{name}=sentinel sent after the hostile lines was not processed (attribute shows {got!r})"))
+    else:
+        lc = lifecycle(tr)
+        close_seq = lc["final_close"] if lc["final_close"] is not None else 10 ** 12
+        n = spec.get("sentinels", 0)
+        seen = {e["val"] for e in tr if e["k"] == "msg_cb" and e["cb"] == 1 and e["su"] == "MAIN" and e["fn"] == "ZONENAME"}
+        for k in range(1, n + 1):
+            if f"sentinel{k}" not in seen:
+                bad.append(("not-processed", f"the line @MAIN:ZONENAME=sentinel{k} sent after a hostile line was not delivered to the registered callback"))
+                break
+        for c in calls(tr):
+            if c["op"][0] == "connected" and c["res"] is False:
+                bad.append(("reports-disconnected", "connected is False although the link never failed"))
+            if c["op"][0] in ("put", "get", "raw") and c["exc"] is not None:
+                bad.append(("raises-in-caller", f"{c['op'][0]} raised {c['exc']}: {c.get('msg')}"))
+    for e in tr:
+        if e["seq"] > close_seq:
+            break
+        if e["k"] == "thread_exc" and e["th"][:1] in ("R", "S"):
+            hostile = [d["line"][:80] for d in tr if d["k"] == "dev_line" and d["seq"] < e["seq"] and d.get("cause") is None][-2:]
+            bad.append(("thread-died", f"library thread {e['th']} died with {e['exc']}: {e.get('msg')}; last volunteered lines: {hostile}"))
+            break
+    for e in tr:
+        if e["k"] == "disc_cb" and e["seq"] < close_seq:
+            bad.append(("disconnect-callback", "the disconnect callback was invoked although the link never failed"))
+            break
+    return bad
+
+
+MONITORS["C10"] = mon_c10
